@@ -855,14 +855,17 @@ func getAllSegmentsInAggs(queryInfo *QueryInformation, qsrs []*QuerySegmentReque
 		return nil, 0, 0, err
 	}
 
-	finalQsrs = append(finalQsrs, unrotatedQSR...)
-	numRawSearch += unrotatedRawCount
-
 	rotatedQSR, rotatedRawCount, err := getAllRotatedSegmentsInAggs(queryInfo, aggs, timeRange, indexNames, qid, sTime, orgid)
 	if err != nil {
 		log.Errorf("getAllSegmentsInAggs: qid=%d, Failed to get all rotated segments: %v", queryInfo.qid, err)
 		return nil, 0, 0, err
 	}
+
+	unrotatedQSR, droppedRawCount, _ := removeQSRsAlsoRotated(unrotatedQSR, rotatedQSR)
+	unrotatedRawCount -= droppedRawCount
+
+	finalQsrs = append(finalQsrs, unrotatedQSR...)
+	numRawSearch += unrotatedRawCount
 
 	if config.IsS3Enabled() {
 		rotatedSegments := getRotatedSegments(rotatedQSR)
@@ -1059,6 +1062,34 @@ func getRotatedSegments(qsrs []*QuerySegmentRequest) map[string]struct{} {
 	return usedSegments
 }
 
+// The unrotated segments are listed before the rotated ones, so a segment that gets rotated in
+// between (or is just being rotated: added to the rotated metadata, not yet removed from the
+// unrotated info) is in both lists. Drop its unrotated request; otherwise its records are counted
+// twice. Returns the remaining unrotated requests and how many raw search / pqs requests were dropped.
+func removeQSRsAlsoRotated(unrotatedQSRs []*QuerySegmentRequest,
+	rotatedQSRs []*QuerySegmentRequest) ([]*QuerySegmentRequest, uint64, uint64) {
+
+	if len(unrotatedQSRs) == 0 || len(rotatedQSRs) == 0 {
+		return unrotatedQSRs, 0, 0
+	}
+
+	rotatedSegKeys := getRotatedSegments(rotatedQSRs)
+	droppedRaw := uint64(0)
+	droppedPQS := uint64(0)
+	retVal := make([]*QuerySegmentRequest, 0, len(unrotatedQSRs))
+	for _, qsr := range unrotatedQSRs {
+		if _, ok := rotatedSegKeys[qsr.segKey]; !ok {
+			retVal = append(retVal, qsr)
+		} else if qsr.sType == structs.UNROTATED_PQS {
+			droppedPQS++
+		} else {
+			droppedRaw++
+		}
+	}
+
+	return retVal, droppedRaw, droppedPQS
+}
+
 // return sorted slice of querySegmentRequests, count of raw search requests, distributed queries, and count of pqs request
 func getAllSegmentsInQuery(queryInfo *QueryInformation, sTime time.Time) ([]*QuerySegmentRequest, uint64, uint64, uint64, error) {
 	unsortedQsrs := make([]*QuerySegmentRequest, 0)
@@ -1071,14 +1102,18 @@ func getAllSegmentsInQuery(queryInfo *QueryInformation, sTime time.Time) ([]*Que
 		return nil, 0, 0, 0, err
 	}
 
-	unsortedQsrs = append(unsortedQsrs, unrotatedQSR...)
-	numRawSearch += unrotatedRawCount
-	numPQS += unrotatedPQSCount
-
 	rotatedQSR, rotatedRawCount, rotatedPQS, err := getAllRotatedSegmentsInQuery(queryInfo, sTime)
 	if err != nil {
 		return nil, 0, 0, 0, err
 	}
+
+	unrotatedQSR, droppedRawCount, droppedPQSCount := removeQSRsAlsoRotated(unrotatedQSR, rotatedQSR)
+	unrotatedRawCount -= droppedRawCount
+	unrotatedPQSCount -= droppedPQSCount
+
+	unsortedQsrs = append(unsortedQsrs, unrotatedQSR...)
+	numRawSearch += unrotatedRawCount
+	numPQS += unrotatedPQSCount
 
 	if config.IsS3Enabled() {
 		rotatedSegments := getRotatedSegments(rotatedQSR)
